@@ -10,14 +10,19 @@ from kernel import term_ord
 
 def compare_fst(p1, p2):
     if isinstance(p1[0], Term):
-        return term_ord.fast_compare(p1[0], p2[0])
+        # p1, p2 are pairs of a term and its power. Compare the powers when
+        # the terms agree (so that x^1 and x^2 are ordered).
+        res = term_ord.fast_compare(p1[0], p2[0])
+        if res != 0:
+            return res
+        return term_ord.compare_atom(p1[1], p2[1])
     else:
         if len(p1[0]) != len(p2[0]):
             return term_ord.compare_atom(len(p1[0]), len(p2[0]))
         for i in range(len(p1[0])):
             if p1[0][i] != p2[0][i]:
                 return compare_fst(p1[0][i], p2[0][i])
-            return 0
+        return 0
 
 def collect_pairs(ps):
     """Reduce a list of pairs by collecting into groups according to
